@@ -133,6 +133,9 @@ class ValPolicy(BasePolicy):
             for val, lo, hi in cl:
                 if self.rename(canon(lo)) == "LBEFF" and self.rename(canon(hi)) == "UBEFF":
                     return self.eval(val, state, flow)
+                # a two-sided clamp to the hard bounds themselves puts any value inside the hard box
+                if self.rename(canon(lo)) == "lb" and self.rename(canon(hi)) == "ub":
+                    return frozenset({"VAL"})
             n = call_name(expr)
             if n in ("np.maximum", "np.minimum") and len(expr.args) == 2:
                 # moving a validated plausible bound towards an effective bound / towards x0 keeps it
@@ -331,6 +334,12 @@ def check(ctx):
         elif fn is val:
             tg = vflow.tags(arg)
             okc, why = tg is not None and "VAL" in tg, "validated plausible bounds"
+            # the starting point may still be the all-NaN placeholder of an omitted x0 inside the validator (the comparisons
+            # of the raise guards are all false for NaN): it must not reach the callable unless a finiteness test guards the call
+            if okc and arg is not None and vparams and any(isinstance(n_, ast.Name) and n_.id == vparams[0] for n_ in ast.walk(arg)):
+                gtxt = " ".join(canon(t_, neg=not p_) for t_, p_ in guard_of(prog, fn, c))
+                if f"np.isfinite({vparams[0]})" not in gtxt and f"np.isnan({vparams[0]})" not in gtxt:
+                    okc, why = False, ""
         elif fn is init and canon(arg) == "self.x0":
             # self.x0: validator result[0] or a uniform draw between the validated plausible bounds
             good = val_ok.get(0, False)
